@@ -190,6 +190,57 @@ def run(ctx):
             if not all(any(x == y for y in it) for x in d2):
                 res.violations.append(vlib.Violation("raising the threshold added or reordered rows", {"vector": list(key[0]), "thresholds": [str(t1), str(t2)]},
                                                      expected="rows(%s) sub-sequence of rows(%s)" % (t2, t1)))
+    # ---- one scan, three formats: the same object is cited for every metric (JSON v1 / JSON v2 / table footnotes)
+    import re
+    import scancheck as SC
+    from props import c08 as _c08
+    eng = SC.Engine(ctx)
+    try:
+        for it in range(6 if quick else 60):
+            sc = S.Scenario()
+            tiny = [sc.add({"kind": "blob", "data": bytes([97 + k])}) for k in range(5)]
+            big = sc.add({"kind": "blob", "data": b"B" * rng.choice([4096, 20000])})
+            lnk = sc.add({"kind": "blob", "data": b"target"})
+            t_many = sc.add({"kind": "tree", "entries": [(0o100644, b"f%d" % k, b) for k, b in enumerate(tiny)]})
+            t_big = sc.add({"kind": "tree", "entries": [(0o100644, b"big", big)]})
+            t_links = sc.add({"kind": "tree", "entries": [(0o120000, b"l%d" % k, lnk) for k in range(7)] + [(0o160000, b"sub", b"\x22" * 20)]})
+            t_deep = sc.add({"kind": "tree", "entries": [(0o40000, b"d", t_many)]})
+            trees = [t_many, t_big, t_links, t_deep]
+            rng.shuffle(trees)
+            prev = None
+            for k, t in enumerate(trees):
+                prev = sc.add({"kind": "commit", "tree": t, "parents": [prev] if prev is not None else [], "date": 1000000000 + k})
+            sc.refs.append((b"refs/heads/main", prev))
+            sc.compute()
+            order = sc.enum_random([prev], rng)
+            outs = {}
+            for fmt in (["--json"], ["--json", "--json-version=2"], ["-v"]):
+                rc, out, err, log = eng.run_fake(sc, order, [], [], extra_args=fmt + ["--no-progress", "--names=hash"])
+                outs[tuple(fmt)] = out if rc == 0 else None
+            res.case(("formats", tuple(sc.oids), tuple(order)), True)
+            if None in outs.values():
+                res.violations.append(vlib.Violation("a run failed", {"objects": len(sc.objects)}))
+                continue
+            j1 = json.loads(outs[("--json",)])
+            j2 = json.loads(outs[("--json", "--json-version=2")])
+            tbl = outs[("-v",)]
+            notes = {int(m.group(1)): m.group(2).decode() for m in re.finditer(rb"(?m)^\[(\d+)\] +([0-9a-f]{40})", tbl)}
+            cited = [int(m.group(1)) for ln in tbl.split(b"\n\n")[0].split(b"\n") for m in [re.search(rb"\[(\d+)\] +\|", ln)] if m and ln.startswith(b"|")]
+            want = []
+            for (pkey, vkey, kind), sym in zip(_c08.SLOTS, _c08.V2SYM):
+                o1 = j1.get(pkey)
+                if o1:
+                    want.append(o1.partition(" ")[0])
+                o2 = j2.get(sym, {}).get("objectName")
+                if (o1.partition(" ")[0] if o1 else None) != o2:
+                    res.violations.append(vlib.Violation("JSON v2 and JSON v1 cite different objects for %s" % sym, {"scenario": "four commits, trees maximal in different metrics"},
+                                                         expected=o1, observed=o2))
+            got = [notes.get(n) for n in cited]
+            if got != want:
+                res.violations.append(vlib.Violation("the table cites different objects than JSON v1 (rows in table order)", {"scenario": "four commits, trees maximal in different metrics"},
+                                                     expected=want, observed=got))
+    finally:
+        eng.close()
     res.coverage_extra["input_distribution"] = stats
     res.assumptions = ["binary64 division and float64(uint64) are modelled as correctly rounded; fmt %5s pads by rune count"]
     return res
